@@ -2,7 +2,7 @@
     every delivered message), as a Prop [P] and as the boolean checker [Pb]. *)
 From Coq Require Import List Bool Arith ZArith String Lia.
 Import ListNotations.
-Require Import Nib.C15.Model.
+Require Import Nib.C17.MsgTree Nib.C15.Model.
 Local Open Scope Z_scope.
 
 (** a snapshot of the quantities the property talks about, for the tracked denoms and accounts *)
@@ -430,4 +430,62 @@ Lemma Pb_sound strict blocked : forall t prev, Pb strict blocked prev t = true -
 Proof.
   induction t as [|[[tx ok] cur] r IH]; intros prev H; simpl in *; auto.
   apply andb_true_iff in H as [H1 H2]. split; [apply tx_Pb_sound; exact H1 | apply IH; exact H2].
+Qed.
+
+(* ================================================================== message carriers *)
+
+(** Transactions whose messages are TREES (authz MsgExec, contract dispatch).  The token-factory
+    clauses above are evaluated on the token-factory messages the tx executes, in order
+    ([flat_ops]); on top of them the AUTHORITY clause: an accepted tx has no delegation edge that
+    nobody vouches for — [walk_all] from the grants on record before the tx succeeds, i.e. below
+    every MsgExec each message is the grantee's own or its signer has granted the grantee that
+    message type, and every message a contract dispatches is the contract's own; and the account
+    that stands behind a token-factory message (its signer, what the carriers compare) IS the account
+    its sender string names (what the admin test compares) — [msg_wf].  A rejected tx leaves the grants
+    as they were. *)
+Definition gst_incl (A B : gst) : bool := forallb (fun x => existsb (grant_eqb x) B) A.
+Definition gst_same (A B : gst) : bool := gst_incl A B && gst_incl B A.
+
+Definition ttx_P (strict : bool) (blocked : list string) (w : world) (prev : snap) (G : gst)
+           (tx : list msg) (ok : bool) (cur : snap) (G' : gst) : Prop :=
+  tx_P strict blocked prev (flat_ops tx) ok cur /\
+  (ok = false -> gst_same G' G = true) /\
+  (ok = true -> exists G1, walk_all w tx G = Some G1) /\
+  (ok = true -> forallb msg_wf tx = true).
+
+Fixpoint Pt (strict : bool) (blocked : list string) (w : world) (prev : snap) (G : gst)
+         (t : list (list msg * bool * snap * gst)) : Prop :=
+  match t with
+  | [] => True
+  | (tx, ok, cur, G') :: r => ttx_P strict blocked w prev G tx ok cur G' /\ Pt strict blocked w cur G' r
+  end.
+
+Definition ttx_Pb (strict : bool) (blocked : list string) (w : world) (prev : snap) (G : gst)
+           (tx : list msg) (ok : bool) (cur : snap) (G' : gst) : bool :=
+  tx_Pb strict blocked prev (flat_ops tx) ok cur &&
+  (ok || gst_same G' G) &&
+  (negb ok || match walk_all w tx G with Some _ => true | None => false end) &&
+  (negb ok || forallb msg_wf tx).
+
+Fixpoint Pbt (strict : bool) (blocked : list string) (w : world) (prev : snap) (G : gst)
+         (t : list (list msg * bool * snap * gst)) : bool :=
+  match t with
+  | [] => true
+  | (tx, ok, cur, G') :: r => ttx_Pb strict blocked w prev G tx ok cur G' && Pbt strict blocked w cur G' r
+  end.
+
+Lemma ttx_Pb_sound strict blocked w prev G tx ok cur G' :
+  ttx_Pb strict blocked w prev G tx ok cur G' = true -> ttx_P strict blocked w prev G tx ok cur G'.
+Proof.
+  unfold ttx_Pb, ttx_P. rewrite !andb_true_iff. intros [[[H1 H2] H3] H4]. split; [|split; [|split]].
+  - apply tx_Pb_sound. exact H1.
+  - intro Hk. subst ok. exact H2.
+  - intro Hk. subst ok. simpl in H3. destruct (walk_all w tx G) as [G1|]; [eauto | discriminate].
+  - intro Hk. subst ok. exact H4.
+Qed.
+
+Lemma Pbt_sound strict blocked w : forall t prev G, Pbt strict blocked w prev G t = true -> Pt strict blocked w prev G t.
+Proof.
+  induction t as [|[[[tx ok] cur] G'] r IH]; intros prev G H; simpl in *; auto.
+  apply andb_true_iff in H as [H1 H2]. split; [apply ttx_Pb_sound; exact H1 | apply IH; exact H2].
 Qed.
